@@ -120,11 +120,64 @@ def mono(ctx, rep, rule):
     rep.check(rule, key, ok, "next_oid only moves forward", "next_oid can be updated on a path that skips the order test",
               body.loc(line), obligation=True)
     # the comparison is the arc-wise one, not a bytewise one (arc 16383 = ff 7f > 81 80 00 = arc 16384 bytewise)
+    cmp_arcs_shape(ctx, rep, rule)
+
+
+def cmp_arcs_shape(ctx, rep, rule):
+    """Canonical shape of the arc-wise comparison (tolerant: an unrecognised shape is inconclusive).
+    Per sub-identifier: the encoded length decides first (minimal base-128 encodings: more octets = greater
+    value), the octets only break ties; the bytewise order alone is wrong (16383 = ff 7f, 16384 = 81 80 00)."""
+    facts = ctx.facts
     cb = [b for b in facts.body_list if b.path.startswith("ber::objectid::SnmpOid") and b.path.endswith("::cmp_arcs")]
-    if cb:
-        tg = cells.tags(cb[0], [b.idx for b in cb[0].live_blocks()])
-        rep.check(rule, "SnmpOid::cmp_arcs|by-sub-identifier", cells.has_call(tg, "::split_inclusive") or cells.has_call(tg, "::split"),
-                  "compares sub-identifier by sub-identifier", "cmp_arcs no longer splits the encoding into sub-identifiers", cb[0].loc())
+    if not cb:
+        rep.inconclusive(rule, "SnmpOid::cmp_arcs|shape", "cmp_arcs not found (comparison implemented elsewhere)")
+        return
+    body = cb[0]
+    prov = flow.Prov(body)
+    tg = cells.tags(body, [b.idx for b in body.live_blocks()])
+    rep.check(rule, "SnmpOid::cmp_arcs|by-sub-identifier", cells.has_call(tg, "::split_inclusive"),
+              "compares sub-identifier by sub-identifier", "cmp_arcs no longer splits the encoding into sub-identifiers", body.loc(), obligation=True)
+    key = "SnmpOid::cmp_arcs|length-before-octets"
+
+    def is_len_cmp(t):
+        return t[0] == "call" and (t[1] or "").endswith("Ord for usize>::cmp") and all(
+            flow.mentions(a, lambda s: s[0] == "call" and (s[1] or "").endswith("[T]>::len")) for a in t[2])
+
+    def is_bytes_cmp(t):
+        return t[0] == "call" and (t[1] or "").endswith("Ord for [T]>::cmp")
+
+    def closure_term(name):
+        cbd = facts.body(name)
+        return flow.Prov(cbd).local(0) if cbd else None
+    chains = [b for b in body.calls() if (callee_path(b.term) or "") in ("std::cmp::Ordering::then_with", "std::cmp::Ordering::then")]
+    if len(chains) != 1:
+        # no chain at all: is there any length comparison?
+        allt = [prov.call_term(b.term) for b in body.calls()]
+        if any(is_bytes_cmp(t) for t in allt) and not any(is_len_cmp(t) for t in allt):
+            rep.violation(rule, key, "sub-identifiers are compared by their octets only: the encoded length is never compared, so "
+                          "arc 16383 (ff 7f) sorts after arc 16384 (81 80 00)", body.loc(), obligation=True)
+        else:
+            rep.inconclusive(rule, key, "comparison chain not recognised", body.loc())
+        return
+    t = chains[0].term
+    first = prov.operand(t["args"][0])
+    second = prov.operand(t["args"][1])
+    if second[0] == "agg" and second[1] == "closure":
+        # closure aggregate: find its body by position (closure#k of cmp_arcs taking the captured slices)
+        cands = [b for b in facts.closures_of(body.path)]
+        sec = None
+        for c in cands:
+            ct = flow.Prov(c).local(0)
+            if is_len_cmp(ct) or is_bytes_cmp(ct):
+                sec = ct
+        second = sec if sec is not None else second
+    if is_len_cmp(first) and is_bytes_cmp(second):
+        rep.ok(rule, key, "len(x).cmp(len(y)).then(x.cmp(y))", body.loc(t["line"]), obligation=True)
+    elif is_bytes_cmp(first):
+        rep.violation(rule, key, "the octets are compared before the encoded length: the length tie-break can never decide, so arc "
+                      "16383 (ff 7f) sorts after arc 16384 (81 80 00)", body.loc(t["line"]), obligation=True)
+    else:
+        rep.inconclusive(rule, key, "chain is %s then %s" % (flow.fmt(first), flow.fmt(second)), body.loc(t["line"]))
 
 
 def cont(ctx, rep, rule):
